@@ -192,6 +192,9 @@ def _gen_case(rng, tier):
             if rng.random() < 0.2:
                 hdrs['If-Modified-Since'] = rng.choice(['Mon, 01 Jan 2035 00:00:00 GMT', 'Thu, 01 Jan 1970 00:00:00 GMT', 'garbage'])
             case['req_headers'] = hdrs
+            if rng.random() < 0.3:
+                case['prime_static'] = rng.choice([{'Range': 'bytes=9-17'}, {'Range': 'bytes=0-0'}, {'Range': 'bytes=-3'},
+                                                   {'If-Modified-Since': 'Mon, 01 Jan 2035 00:00:00 GMT'}, {'Range': 'bytes=5-'}, {}])
             if rng.random() < 0.12:
                 # a file several times as large as the block size static_file streams with, ranges across block edges
                 case['result']['name'] = rng.choice(['big.bin', 'big.bin', 'link.bin'])
@@ -205,7 +208,7 @@ def _gen_case(rng, tier):
             case['result'] = {'k': 'abort', 'code': rng.choice([400, 401, 404, 418, 500, 503]), 'text': rng.choice(TEXTS) or 'x'}
     if case['before'] and case['path'] not in ('miss', 'miss_scoped') and rng.random() < 0.12:
         case['rewrite'] = rng.choice(['path', 'method'])
-    primed = case['result'].get('k') == 'read_body' and case.get('prime')
+    primed = (case['result'].get('k') == 'read_body' and case.get('prime')) or case.get('prime_static') is not None
     if case['before'] and not primed and rng.random() < 0.06:
         case['oneshot'] = rng.randrange(case['before'])      # this before-request hook unregisters itself when it runs
     if case['after'] and not primed and rng.random() < 0.06:
@@ -629,7 +632,7 @@ def serve_and_check(case, app, suffix):
         path = path + case['path_suffix'].encode('utf8').decode('latin1')
     ctx.app = app
 
-    def environ(query, accept_json):
+    def environ(query, accept_json, req_headers=None):
         kw = {}
         if case['result']['k'] == 'read_body':
             import io
@@ -643,7 +646,7 @@ def serve_and_check(case, app, suffix):
         method = case['method']
         if case.get('rewrite') == 'method':
             method = 'TRACE'        # the before-request hook puts the real method back before routing
-        hdrs = dict(case.get('req_headers') or {})
+        hdrs = dict((case.get('req_headers') if req_headers is None else req_headers) or {})
         if accept_json:
             hdrs['Accept'] = 'application/json'
         env = make_environ(method, path, query + suffix, file_wrapper=(FakeFileWrapper if case['file_wrapper'] else None),
@@ -663,6 +666,14 @@ def serve_and_check(case, app, suffix):
             del events[:]
             del ctx.iterables[:]
             res['probes']['primed_shared_error_response'] += 1
+    if case['result']['k'] == 'static' and case.get('prime_static') is not None:
+        # an earlier request for the same file with other request headers (a range, a conditional request)
+        saved_fault, ctx.fault = ctx.fault, None
+        call_app(app, environ('', False, req_headers=case['prime_static']))
+        ctx.fault = saved_fault
+        del events[:]
+        del ctx.iterables[:]
+        res['probes']['primed_static_file'] += 1
     env = environ(case.get('query', ''), case.get('accept_json'))
     r = call_app(app, env, stop_after=case['stop_after'], on_event=lambda *a: events.append(a))
 
@@ -863,6 +874,10 @@ def shrink_candidates(case):
         yield dict(case, accept_json=False)
     if case['file_wrapper']:
         yield dict(case, file_wrapper=False)
+    if case.get('prime_static') is not None:
+        c = dict(case)
+        del c['prime_static']
+        yield c
     if case.get('prime') and case['prime'].get('accept_json'):
         yield dict(case, prime=dict(case['prime'], accept_json=False))
     if case['method'] != 'GET' and case['result']['k'] != 'read_body':
